@@ -67,6 +67,7 @@ def check(m, run):
     kg_ok = len(run.obs) > n_kg and all(o.ok for o in run.obs[n_kg:])
     with run.corroborating(kg_ok, 'KG2', rules=('LY4.generate-length',)):
         ly4(m, run)
+    kg3(m, run)        # ... for every count, not only the enumerated ones: the number of knots never depends on how a quotient rounds
     # normalisation is decided exactly on rational knot vectors (NM2); the rule that reads the element map of the comprehension corroborates
     n_nm = len(run.obs)
     try:
@@ -707,3 +708,127 @@ def ho2(m, run):
         run.ob('HO2.half-open-support', fi.key + ' :: support test', oks,
                'zero outside [U[i], U[i+p+1])' if oks else 'support test is not `u < U[i] or u >= U[i+p+1]`', site(fi, sup[0] if sup else None))
     run.floor('HO2.half-open-support', 4, 'two routines x (indicator, support)')
+
+
+# ---------------------------------------------------------------------------------------------- KG3
+def _kg3_findings(fn, resolve, param_taint=frozenset(), memo=None, depth=0):
+    """-> (findings, returns_rounded).  A value is *rounded* when it is the result of a division that involves a non-constant operand, or
+    is computed from one (flow-insensitive, per function, parameters as at the call site).  A finding is a loop or branch condition that
+    compares a rounded value and governs whether an element is emitted (yield / append / extend / += / return / break / continue in
+    its body): the number of knots would then depend on how a quotient happens to round."""
+    memo = memo if memo is not None else {}
+    key = (id(fn), frozenset(param_taint))
+    if key in memo:
+        return memo[key]
+    memo[key] = ([], False)            # (recursion: nothing new on the way back)
+    if depth > 5:
+        return memo[key]
+    tainted = set(param_taint)
+    sub = []
+
+    def is_const(e):
+        return isinstance(e, ast.Constant) or (isinstance(e, ast.UnaryOp) and is_const(e.operand))
+
+    def callee_of(e):
+        callee = resolve(e.func, fn)
+        if callee is None:
+            return None
+        ps = [a.arg for a in callee.args.args]
+        pt = frozenset(p_ for p_, a in zip(ps, e.args) if rounded(a)) | frozenset(k.arg for k in e.keywords if k.arg and rounded(k.value))
+        return _kg3_findings(callee, resolve, pt, memo, depth + 1)
+
+    def rounded(e):
+        if isinstance(e, ast.Name):
+            return e.id in tainted
+        if isinstance(e, ast.BinOp):
+            if isinstance(e.op, ast.Div) and not (is_const(e.left) and is_const(e.right)):
+                return True
+            return rounded(e.left) or rounded(e.right)
+        if isinstance(e, ast.UnaryOp):
+            return rounded(e.operand)
+        if isinstance(e, ast.Call):
+            name = e.func.id if isinstance(e.func, ast.Name) else None
+            if name in ('int', 'len', 'range'):
+                return False
+            r = callee_of(e)
+            if r is not None:
+                return r[1]
+            return any(rounded(a) for a in e.args)
+        if isinstance(e, (ast.List, ast.Tuple)):
+            return any(rounded(x) for x in e.elts)
+        if isinstance(e, (ast.ListComp, ast.GeneratorExp)):
+            return rounded(e.elt)
+        if isinstance(e, ast.Subscript):
+            return rounded(e.value)
+        if isinstance(e, ast.IfExp):
+            return rounded(e.body) or rounded(e.orelse)
+        return False
+    for _ in range(6):          # names: fixpoint over the assignments of the function
+        before = len(tainted)
+        for n in walk_no_nested(fn):
+            if isinstance(n, ast.Assign) and rounded(n.value):
+                tainted.update(x.id for t in n.targets for x in ast.walk(t) if isinstance(x, ast.Name))
+            elif isinstance(n, ast.AugAssign) and isinstance(n.target, ast.Name) and rounded(n.value):
+                tainted.add(n.target.id)
+            elif isinstance(n, ast.For) and rounded(n.iter):
+                tainted.update(x.id for x in ast.walk(n.target) if isinstance(x, ast.Name))
+        if len(tainted) == before:
+            break
+
+    def emits(body):
+        return any(isinstance(x, (ast.Yield, ast.YieldFrom, ast.Return, ast.Break, ast.Continue)) or
+                   (isinstance(x, ast.Call) and isinstance(x.func, ast.Attribute) and x.func.attr in ('append', 'extend', 'insert')) or
+                   (isinstance(x, ast.AugAssign) and isinstance(x.op, ast.Add) and not isinstance(x.value, ast.Constant)) for st in body for x in ast.walk(st))
+
+    def compares_rounded(test):
+        return any(isinstance(c, ast.Compare) and any(rounded(x) for x in [c.left] + c.comparators) for c in ast.walk(test))
+    findings, ret = [], False
+    for n in walk_no_nested(fn):
+        if isinstance(n, (ast.While, ast.If)) and compares_rounded(n.test) and emits(n.body + n.orelse):
+            findings.append((fn, n, norm(n.test)))
+        if isinstance(n, (ast.Return, ast.Yield)) and n.value is not None and rounded(n.value):
+            ret = True
+        if isinstance(n, (ast.ListComp, ast.GeneratorExp)):
+            findings.extend((fn, n, norm(c)) for g in n.generators for c in g.ifs if compares_rounded(c))
+        if isinstance(n, ast.Call):
+            r = callee_of(n)
+            if r is not None:
+                sub.extend(r[0])
+    uniq, out = set(), []
+    for f in findings + sub:
+        if id(f[1]) not in uniq:
+            uniq.add(id(f[1]))
+            out.append(f)
+    memo[key] = (out, ret)
+    return memo[key]
+
+
+def kg3(m, run, rule='KG3.knot-count-decided-by-integers'):
+    """the number of generated knots is a function of the integers degree and count: in knotvector.generate and everything it calls
+    (parameters as at the call sites) no loop or branch condition that governs whether an element is emitted compares a rounded
+    quotient (a float division of non-constant operands, or anything computed from one)"""
+    fi = m.func('knotvector.generate')
+    owner = {id(fi.node): fi}
+
+    def resolve(f, inside):
+        t = m.resolve_callable(owner[id(inside)].mod, f)        # the expression is resolved in the module of the function it stands in
+        if t is None or t.kind != 'function':
+            return None
+        owner[id(t.node)] = t
+        return t.node
+    found, _ = _kg3_findings(fi.node, resolve)
+    # controls: a float-stepped generator must be reported, an integer-counted one with a constant comparison must not
+    ctl = ast.parse('def gen(n):\n    step = 1.0 / n\n    x = 0.0\n    out = []\n    while x + step / 2.0 < 1.0:\n        out.append(x)\n        x += step\n    return out\n').body[0]
+    neg = ast.parse('def gen(n):\n    out = []\n    if abs(0.0 - 1.0) <= 1e-7:\n        return [0.0]\n    for i in range(n):\n        out.append(float(i) / float(n - 1))\n    return out\n').body[0]
+    c_pos, c_neg = _kg3_findings(ctl, lambda f, inside: None)[0], _kg3_findings(neg, lambda f, inside: None)[0]
+    if len(c_pos) != 1 or c_neg:
+        raise AnalysisError('KG3 controls: the float-stepped generator gives %d reports, the integer-counted one %d: rule is broken' % (len(c_pos), len(c_neg)))
+    reached = sorted(t.key for t in owner.values())
+    if found:
+        fn, node, test = found[0]
+        who = owner[id(fn)]
+        run.ob(rule, fi.key, False, 'in %s the condition `%s` compares a rounded quotient and decides whether a knot is emitted: for counts where the quotient rounds the other way '
+               '(n * (1.0 / n) != 1.0 for n = 49, 98, 103 ...) the vector gets one knot too many or too few   [%d conditions]' % (who.key, test[:100], len(found)),
+               'geomdl/%s.py:%d in %s' % (who.mod, node.lineno, who.key))
+    else:
+        run.ob(rule, fi.key, True, 'no emission is governed by a comparison of a rounded quotient (functions followed: %s); controls: reported / silent' % ', '.join(reached), site(fi))
